@@ -494,6 +494,15 @@ func (w *World) buildPayV2(wl *Wallet, n *Node, chain int) []*PoolTxn {
 	if t.Chance(1, 6) {
 		txn.ArbitraryData = sim.HashBytes("arb2", uint64(wl.idx), wl.next(), pick(t, t.Range(1, 40), t.Range(1, 40), t.Range(63, 66), t.Range(127, 130), t.Range(190, 260)))
 	}
+	if t.Chance(1, 5) {
+		// attestations: leaves of the accumulator that belong to no diff
+		for i := 0; i < t.Range(1, 3); i++ {
+			a := types.Attestation{PublicKey: wl.keys[0].PublicKey(), Key: pick(t, "HostAnnouncement", "k", "note"), Value: sim.HashBytes("att", uint64(wl.idx), wl.next(), t.Range(0, 40))}
+			a.Signature = wl.keys[0].SignHash(n.tip.AttestationSigHash(a))
+			txn.Attestations = append(txn.Attestations, a)
+		}
+		w.stats.Inc("workload.attestations")
+	}
 	if !wl.signV2(n.tip, &txn) {
 		return nil
 	}
